@@ -224,7 +224,12 @@ func Wrap(xs ...*Term) *Term {
 	sort.Slice(out, func(i, j int) bool { return out[i].key < out[j].key })
 	return mk(Term{K: KWrap, A: out})
 }
-func Box(t types.Type, x *Term) *Term      { return mk(Term{K: KBox, T: t, A: []*Term{x}}) }
+func Box(t types.Type, x *Term) *Term { return mk(Term{K: KBox, T: t, A: []*Term{x}}) }
+
+// BoxWrapping is a boxed error object that carries (and unwraps to) inner.
+func BoxWrapping(t types.Type, x, inner *Term) *Term {
+	return mk(Term{K: KBox, T: t, A: []*Term{x, inner}})
+}
 func Struct(t types.Type, f []*Term) *Term { return mk(Term{K: KStruct, T: t, A: f}) }
 func Array(t types.Type, f []*Term) *Term  { return mk(Term{K: KArray, T: t, A: f}) }
 func Tuple(f ...*Term) *Term               { return mk(Term{K: KTuple, A: f}) }
@@ -449,7 +454,11 @@ func (t *Term) Unwraps(x *Term) bool {
 			}
 		}
 	case KBox:
-		return t.A[0].Unwraps(x)
+		if t.A[0].Unwraps(x) {
+			return true
+		}
+		// a boxed error object whose Unwrap method hands out the error it carries
+		return len(t.A) > 1 && t.A[1].Unwraps(x)
 	}
 	return false
 }
@@ -459,14 +468,16 @@ func (t *Term) WrapLeaves() []*Term {
 	var out []*Term
 	var rec func(*Term)
 	rec = func(n *Term) {
-		switch n.K {
-		case KWrap:
+		switch {
+		case n.K == KWrap:
 			if len(n.A) == 0 {
 				out = append(out, n)
 			}
 			for _, a := range n.A {
 				rec(a)
 			}
+		case n.K == KBox && len(n.A) > 1:
+			rec(n.A[1]) // what the object's Unwrap method returns
 		default:
 			out = append(out, n)
 		}
